@@ -32,6 +32,8 @@ def make_lit(kind, k):
     """k in 0..3 selects the lexical form"""
     if kind == "str":
         return ["lit", ["a", "b c", "x1", ""][k], XSD_STRING, ""]
+    if kind == "word":
+        return ["lit", ["alpha", "beta gamma", "Delta", "x"][k], XSD_STRING, ""]
     if kind == "lang":
         return ["lit", ["hola", "b c", "x", "y z"][k], LANGSTRING, "en"]
     if kind == "lang2":
